@@ -5,6 +5,7 @@ package pp
 
 import (
 	"net"
+	"sync"
 
 	"github.com/ethereum/go-ethereum/p2p/enode"
 	"github.com/ethereum/go-ethereum/p2p/enr"
@@ -12,6 +13,7 @@ import (
 	"github.com/zen-eth/shisui/portalwire"
 	"github.com/zen-eth/shisui/storage"
 	"verifharness/gen"
+	"verifharness/pbt"
 )
 
 // smallCaches keeps fastcache allocations tiny (the default config allocates
@@ -23,12 +25,44 @@ func smallCaches(conf *portalwire.PortalProtocolConfig) {
 	conf.ContentKeyCacheSize = 1 << 20
 }
 
+var (
+	dbMu     sync.Mutex
+	caseDB   []*enode.DB
+	caseInst []*portalwire.PortalProtocol
+)
+
+func trackInstance(p *portalwire.PortalProtocol) {
+	dbMu.Lock()
+	caseInst = append(caseInst, p)
+	dbMu.Unlock()
+}
+
+func init() {
+	// every in-memory node DB opened during a case is closed when the case is over (each holds a goroutine and
+	// leveldb buffers; tens of thousands of cases per process otherwise exhaust the memory)
+	pbt.AfterCase(func() {
+		dbMu.Lock()
+		dbs, insts := caseDB, caseInst
+		caseDB, caseInst = nil, nil
+		dbMu.Unlock()
+		for _, p := range insts {
+			p.VerifResetCaches() // fastcache chunks are off-heap and only come back through Reset
+		}
+		for _, db := range dbs {
+			db.Close()
+		}
+	})
+}
+
 // LocalNode creates a LocalNode with an in-memory DB, address and version set.
 func LocalNode(keyIdx int, ip net.IP, port int, versions []byte) *enode.LocalNode {
 	db, err := enode.OpenDB("")
 	if err != nil {
 		panic(err)
 	}
+	dbMu.Lock()
+	caseDB = append(caseDB, db)
+	dbMu.Unlock()
 	ln := enode.NewLocalNode(db, gen.Key(keyIdx))
 	ln.SetFallbackIP(ip)
 	ln.SetStaticIP(ip)
@@ -53,5 +87,6 @@ func Bare(keyIdx int, versions []byte, st storage.ContentStorage, protocolID por
 	if err != nil {
 		panic(err)
 	}
+	trackInstance(p)
 	return p
 }
